@@ -8,7 +8,7 @@ Numeric policy (DESIGN 2.4): |a-b| <= tol * (1 + scale), scale = largest magnitu
 tol = 1e-9, or 1e-7 for outputs that contain a linear solve.  NaN/Inf on either side is a disagreement."""
 import sys, math, json
 
-SOLVE_LABELS = {"qdd", "lambda", "qdplus", "impulse", "tauc", "force", "ltlsolve"}
+SOLVE_LABELS = {"qdd", "lambda", "qdplus", "impulse", "tauc", "force", "ltlsolve", "fdc_motion", "fdc_constraint_acc", "imp_feasible", "imp_momentum", "imp_energy"}
 
 def parse(path):
     """-> {case: {(tag, seq, label): [tokens]}}, order list"""
@@ -71,6 +71,10 @@ def compare(impl_path, model_path, tol=1e-9, tol_solve=1e-7, skip_labels=(), con
                 rep["max_cond"] = max(rep["max_cond"], cnd)
                 if base in SOLVE_LABELS: t = t * max(1.0, cnd / 100.0)
             mk = ("o", seq, label)
+            if mk in M and M[mk] == ["singular"]:
+                rep["discarded_ill_conditioned"] += 1; continue
+            if mk not in M and ("o", seq, "qdd") in M and M[("o", seq, "qdd")] == ["singular"]: continue
+            if mk not in M and ("o", seq, "qdplus") in M and M[("o", seq, "qdplus")] == ["singular"]: continue
             if mk in M:
                 rep["corr_lines"] += 1
                 d = cmp_tokens(toks, M[mk], t)
